@@ -1,0 +1,16 @@
+//go:build verif
+// +build verif
+
+package pkcs12
+
+// Hook for the verification harness, property C17 (build tag "verif" only): verifyMac on a stored digest
+// chosen by the caller (any length), for the given salt, iteration count, message and password bytes as
+// verifyMac receives them. Nothing here changes the behaviour of existing code.
+func VerifMacCheck(salt, password []byte, iterations int, message, digest []byte) error {
+	var md macData
+	md.Mac.Algorithm.Algorithm = oidSHA1
+	md.MacSalt = salt
+	md.Iterations = iterations
+	md.Mac.Digest = digest
+	return verifyMac(&md, message, password)
+}
